@@ -622,6 +622,12 @@ type catchaller interface {
 	Catchall() core.ZodSchema
 }
 
+// fieldOptionaler is an interface for schemas that decide themselves whether a field of their
+// shape may be absent (objects and structs: Partial, Required).
+type fieldOptionaler interface {
+	IsFieldOptional(field string) bool
+}
+
 // unknownKeysHandler is an interface for schemas that handle unknown keys.
 // We use a generic method signature to avoid circular imports.
 type unknownKeysHandler interface {
@@ -689,7 +695,12 @@ func (c *converter) convertObjectFromShape(schema core.ZodSchema, shape core.Obj
 		properties[key] = propJSONSchema
 		c.path = c.path[:len(c.path)-2]
 
+		// The object decides whether a field may be absent: Partial and Required change that
+		// without touching the field's schema, and Parse asks the object (isFieldOptional).
 		isRequired := !propSchema.Internals().IsOptional()
+		if fo, ok := schema.(fieldOptionaler); ok {
+			isRequired = !fo.IsFieldOptional(key)
+		}
 		// In "input" mode, fields with defaults are not required.
 		if c.opts.IO == "input" {
 			pInternals := propSchema.Internals()
